@@ -705,8 +705,18 @@ pub fn run_c11(ctx: &mut Ctx) {
                 let delta = rng.range(0, 4) as isize - 2;
                 lens.push((room as isize + delta).max(0) as usize);
             } else {
-                lens.push(match rng.below(4) {
+                lens.push(match rng.below(5) {
                     0 => edge[rng.usize_below(edge.len())],
+                    // lengths whose low 32 / 31 bits look harmless
+                    4 => {
+                        let hi = *rng.pick(&[1usize << 31, 1 << 32, 1 << 33, 3 << 32, 1 << 40, 1 << 63, usize::MAX << 32]);
+                        let lo = match rng.below(3) {
+                            0 => 0,
+                            1 => rng.range(0, 64),
+                            _ => rng.range(0, i32::MAX as usize),
+                        };
+                        hi.wrapping_add(lo)
+                    }
                     1 => rng.range(0, 1000),
                     2 => rng.range(0, i32::MAX as usize / 2),
                     _ => rng.range(0, 100_000_000),
@@ -728,6 +738,9 @@ pub fn run_c11(ctx: &mut Ctx) {
             Ok(Ok(accepted)) => {
                 ctx.feature(if accepted { "tlv.c11.limits.accepted" } else { "tlv.c11.limits.rejected" });
                 let total: u128 = header as u128 + lens.iter().map(|l| *l as u128).sum::<u128>();
+                if lens.iter().any(|l| *l as u128 >= 1 << 32) {
+                    ctx.feature("tlv.c11.limits.claimed_length_of_2^32_or_more");
+                }
                 if total == IMAX {
                     ctx.feature("tlv.c11.limits.total_exactly_i32_max");
                 }
